@@ -58,6 +58,35 @@ func (sc *SpecCtx) lookupType(name string) types.Type {
 	case "Int":
 		return specInt
 	}
+	if strings.Contains(name, "/") && !strings.HasPrefix(name, "map[") {
+		// a type named by its full import path: "*github.com/x/y/pkg.T" (needed when the
+		// package name alone is ambiguous or the package is only an indirect import)
+		prefix, q := "", name
+		for strings.HasPrefix(q, "*") || strings.HasPrefix(q, "[]") {
+			if q[0] == '*' {
+				prefix, q = prefix+"*", q[1:]
+			} else {
+				prefix, q = prefix+"[]", q[2:]
+			}
+		}
+		if i := strings.LastIndex(q, "."); i > 0 {
+			if p := vc.eng.pkgTypes(q[:i], nil); p != nil {
+				if tn, ok := p.Scope().Lookup(q[i+1:]).(*types.TypeName); ok {
+					var t types.Type = tn.Type()
+					for k := len(prefix); k > 0; {
+						if strings.HasSuffix(prefix[:k], "[]") {
+							t = types.NewSlice(t)
+							k -= 2
+						} else {
+							t = types.NewPointer(t)
+							k--
+						}
+					}
+					return t
+				}
+			}
+		}
+	}
 	if strings.HasPrefix(name, "map[") {
 		// map[K]V with package-qualified K, V
 		d := 0
